@@ -93,6 +93,10 @@ def gen_c01(tier, rng):
         s = random_bytes(rng, 16)
         sc = bytes(rng.randint(0, 1) for _ in range(len(usegs(s)) + 3))
         add(s, sc, 'malformed')
+    for s in boundary_paths(False)[::(2 if tier == 'quick' else 1)]:
+        n = len(usegs(s)) + 2
+        for sc in (bytes([0] * n), bytes([1] * n), bytes([i % 2 for i in range(n)]), bytes(rng.randint(0, 1) for _ in range(n))):
+            add(s, sc, 'boundary')
     # the same schedules through the generic components API next to real std::path (remainders, offsets,
     # what the partially consumed iterator reports about itself)
     for c in cases[::9]:
@@ -187,6 +191,9 @@ def unary_paths(enc, tier, rng, dist, scale=1.0):
         out.append((s, 'utf8exh'))
     for _ in range(nr // 4):
         out.append((random_utf8_path(rng, enc == 'w'), 'utf8random'))
+    bstride = 1 if scale >= 0.5 else (2 if scale >= 0.25 else 4)
+    for s in boundary_paths(enc == 'w')[::bstride]:
+        out.append((s, 'boundary'))
     for s, st in out:
         hist(dist.setdefault('stream', {}), st)
         hist(dist.setdefault('len', {}), min(len(s), 32))
@@ -298,6 +305,10 @@ def gen_pairs(op, encs=('u', 'w'), second='paths', scale=1.0, fam_filter=None, e
                 pairs.append((a, b))
             for _ in range(nr // 6):
                 pairs.append((random_utf8_path(rng, enc == 'w'), random_utf8_path(rng, enc == 'w', 3)))
+            bp = boundary_pairs(enc == 'w')
+            bstride = max(1, int((3 if tier == 'quick' else 1) / max(scale, 0.1)))
+            pairs += bp[::bstride]
+            hist(dist.setdefault('boundary_pairs', {}), enc + str(len(bp[::bstride])))
             for a, b in pairs:
                 hist(dist.setdefault('lenA', {}), min(len(a), 24)); hist(dist.setdefault('lenB', {}), min(len(b), 24))
                 for fam in fams_for(enc, [a, b], rng):
@@ -392,6 +403,17 @@ def gen_hist(enc, fams, tier, rng, dist, ops=None, std=False, n_random=None, max
         hist(dist.setdefault('histlen', {}), n)
         for fam in fams:
             cases.append('hist.%s\t%s\t%s' % (fam, hx(init), vlist(h)))
+    # boundary buffers: deep and long initial paths, then a few operations with ordinary and boundary arguments
+    # (depth of the rebuilt component list, spill boundaries of small buffers, long names and extensions)
+    bps = [x for x in boundary_paths(enc == 'w') if len(x) <= 300]
+    bstride = 6 if tier == 'quick' else 1
+    bargs = list(args) + [b'..' , b'n' * 64, b'x' * 28 + b'.txt', b'e' * 33]
+    for init in bps[::bstride]:
+        n = rng.randint(1, 4)
+        h = [hop_val(rng.choice(ops), bargs, rng, std) for _ in range(n)]
+        for fam in fams:
+            cases.append('hist.%s\t%s\t%s' % (fam, hx(init), vlist(h)))
+    hist(dist.setdefault('stream', {}), 'boundary-histories')
     return cases
 
 
@@ -688,6 +710,9 @@ def gen_c19(tier, rng):
         r = rng.random()
         s = random_bytes(rng, 20) if r < 0.4 else (random_utf8_path(rng, rng.random() < 0.5) if r < 0.8 else random_win_path(rng))
         cases.append(case('c19', s))
+    for win in (False, True):
+        for s in boundary_paths(win)[::(3 if tier == 'quick' else 1)]:
+            cases.append(case('c19', s))
     # pairs: equality / ordering / hash-equality are the same through every owned, boxed, shared, Cow, typed and mixed form
     pc, _ = gen_pairs('c19p', scale=0.25, fam_filter=lambda f: f in ('u', 'w'))(tier, rng)
     cases += pc
